@@ -114,6 +114,18 @@ def node_cells(ctx: Ctx):
               why_bad=f"geo_to_h3({a0}, {a1}, ...): roles {role(a0)}, {role(a1)} — the heuristic would measure distances between wrong places", construct="OSMRoadNetwork.__init__:geo_to_h3-order")
     ok = len(c.args) == 3 and flow.dump(c.args[2]) == "sim_h3_resolution"
     ctx.check(ok, "D3", "CR.node-cells", "node cells use the simulation resolution", fn, c, why_bad="other resolution", construct="OSMRoadNetwork.__init__:geo_to_h3-res")
+    # every node gets its cell from its own coordinates at this resolution, unconditionally (a cell left over from an
+    # earlier construction at another resolution would put the heuristic's distances off)
+    from ..loader import parent
+    loop = c
+    conds = []
+    while loop is not None and not isinstance(loop, ast.For):
+        if isinstance(loop, ast.If):
+            conds.append(loop)
+        loop = parent(loop)
+    ok = loop is not None and flow.dump(loop.iter) == "graph.nodes(data=True)" and not conds
+    ctx.check(ok, "D3", "CR.node-cells", "the node cell is (re)computed for every node of the graph, unconditionally", fn, c,
+              why_bad=f"the cell is computed only under `{flow.dump(conds[0].test)[:60]}`" if conds else "not in the loop over graph.nodes(data=True)", construct="OSMRoadNetwork.__init__:node-cell-conditional")
 
 
 def weights(ctx: Ctx):
